@@ -53,8 +53,8 @@ def _sent(t):
 
 @cond(quick=dict(parts=[{'n': i} for i in range(4)], budget=100),
       thorough=dict(parts=[{'n': i} for i in range(5)], budget=900))
-def c13_getinfo_one(v: str, n: int, single: bool) -> str:
-    """one requested key, one single-line value"""
+def c13_getinfo_one(v: str, n: int, single: bool, ev: bool) -> str:
+    """one requested key, one single-line value; ev: a data-block asynchronous event arrives just before the reply"""
     assume(len(v) == n)
     _printable(v)
     _carve_values(v)
@@ -64,6 +64,8 @@ def c13_getinfo_one(v: str, n: int, single: bool) -> str:
         o = fakes.Outcome(d)
         if _sent(t) != 'GETINFO ' + K1 + '\r\n':
             return 'wrong-command'
+        if ev:
+            _feed(p, ['650+NS', 'r relay AAAA BBBB 2024-01-01 00:00:00 10.0.0.1 9001 0', 's Fast Running', '.', '650 OK'])
         _feed(p, ['250-' + K1 + '=' + v, '250 OK'])
     except Exception as e:
         return R('exception', '%s: %s', type(e).__name__, e)
@@ -152,8 +154,8 @@ _GC_T = _GC_Q + [{'form': 2, 'nv': 3, 'a': a, 'b': b, 'c': c} for a in range(3) 
 
 
 @cond(quick=dict(parts=_GC_Q, budget=100), thorough=dict(parts=_GC_T, budget=600))
-def c13_getconf(v1: str, v2: str, v3: str, form: int, nv: int, a: int, b: int, c: int, single: bool, othercase: bool) -> str:
-    """GETCONF of one option: unset / empty / one value / repeated"""
+def c13_getconf(v1: str, v2: str, v3: str, form: int, nv: int, a: int, b: int, c: int, single: bool, othercase: bool, ev: bool) -> str:
+    """GETCONF of one option: unset / empty / one value / repeated; ev: a multi-line asynchronous event arrives just before the reply"""
     assume(len(v1) == a and len(v2) == b and len(v3) == c)
     _printable(v1)
     _printable(v2)
@@ -176,6 +178,8 @@ def c13_getconf(v1: str, v2: str, v3: str, form: int, nv: int, a: int, b: int, c
         o = fakes.Outcome(p.get_conf_single(asked) if single else p.get_conf(asked))
         if _sent(t) != 'GETCONF ' + asked + '\r\n':
             return 'wrong-command'
+        if ev:
+            _feed(p, ['650-CONF_CHANGED', '650-ExitNodes=zz', '650 OK'])
         _feed(p, reply)
     except Exception as e:
         return R('exception', '%s: %s', type(e).__name__, e)
